@@ -76,7 +76,7 @@ func c13Def(v int, local byte) fitmodel.Def {
 	case 5: // record with an empty field list (a data record then is just its header)
 		return fitmodel.Def{Local: local, Global: 20}
 	}
-	return fitmodel.Def{Local: local, Global: 0xFF00, Fields: []fitmodel.FieldDef{{Num: 0, Size: 3, Base: fitmodel.Byte}, {Num: 1, Size: 2, Base: fitmodel.Uint16}}}
+	return fitmodel.Def{Local: local, Global: 0x0114, Fields: []fitmodel.FieldDef{{Num: 3, Size: 3, Base: fitmodel.Byte}, {Num: 7, Size: 2, Base: fitmodel.Uint16}}} // 0x0114: an unknown number whose low byte is record (20), with record's field numbers
 }
 
 // c13Payload: distinct bytes derived from the op position so that identity and order are visible.
